@@ -425,7 +425,9 @@ class LossScenario(explore.Scenario):
               'error1',
               # a disconnect callback that itself issues a call (with a
               # deadline) when it runs
-              'cbCall']
+              'cbCall',
+              # six seconds pass (call1's deadline is five)
+              'tick']
 
     def build(self):
         from txdbus import interface as I
@@ -439,6 +441,7 @@ class LossScenario(explore.Scenario):
         w.deadline = {}
         w.completed = set()
         w.errored = set()
+        w.timedout = set()
         w.cbs = {}             # callback name -> list of invocations
         w.active_cbs = set()
         w.regs = {}            # callback name -> live registrations
@@ -468,7 +471,8 @@ class LossScenario(explore.Scenario):
                 continue
             if e == 'cancelA' and 'cbA' not in w.used:
                 continue
-            if e == 'error1' and 'call1' not in w.used:
+            if e == 'error1' and ('call1' not in w.used or
+                                  'call1' in w.timedout):
                 continue
             if e == 'cbA2' and 'cbA' not in w.used:
                 continue
@@ -520,6 +524,10 @@ class LossScenario(explore.Scenario):
                     R.METHOD_RETURN, 500,
                     {'reply_serial': w.call_serial['call0']}, 's', ['r']))
                 w.completed.add('call0')
+            elif e == 'tick':
+                w.cw.clock.advance(6)
+                if 'call1' in w.used and 'call1' not in w.errored:
+                    w.timedout.add('call1')
             elif e == 'cbCall':
                 sink = w.calls.setdefault('late', [])
 
@@ -641,7 +649,13 @@ class LossScenario(explore.Scenario):
                          'running the clock out after the loss raised %r'
                          % (ex,)))
         for name, sink in w.calls.items():
-            if name in w.errored:
+            if name in w.timedout:
+                if sink != [('err', 'TimeOut')]:
+                    viol.append(('%s/loss/timed-out-call-disturbed' % PROP,
+                                 '%s had timed out before the loss; '
+                                 'afterwards its results are %r'
+                                 % (name, sink)))
+            elif name in w.errored:
                 if sink != [('err', 'RemoteError')]:
                     viol.append(('%s/loss/errored-call-disturbed' % PROP,
                                  '%s had been answered with an error reply '
@@ -727,7 +741,11 @@ class LossScenario(explore.Scenario):
         sizes = (len(getattr(c, '_dcCallbacks', ()) or ()),
                  len(getattr(c, '_pendingCalls', ()) or ()),
                  len(getattr(h, '_weakProxies', ()) or ()))
-        return (tuple(sorted(w.used)), w.lost, sizes)
+        timers = tuple(sorted(round(c.getTime() - w.cw.clock.seconds(), 3)
+                              for c in w.cw.clock.getDelayedCalls()
+                              if c.active()))
+        return (tuple(sorted(w.used)), w.lost, sizes,
+                tuple(sorted(w.timedout)), timers)
 
     def nontrivial(self, hist):
         return len(hist) > 2
@@ -774,8 +792,9 @@ def run(ctx):
         explore.explore(
             ctx, LossScenario,
             {'events': ['call0', 'call1', 'call2', 'reply0', 'cbA', 'cbB',
-                        'cancelA', 'cbA2', 'cancelA2', 'error1', 'cbCall']},
-            max_depth=16, label='loss: calls and callbacks, to the fixpoint')
+                        'cancelA', 'cbA2', 'cancelA2', 'error1', 'cbCall',
+                        'tick']},
+            max_depth=17, label='loss: calls and callbacks, to the fixpoint')
     else:
         explore.explore(ctx, LossScenario, {'events': ALL}, max_depth=7,
                         label='loss: all events, depth 7',
@@ -789,8 +808,9 @@ def run(ctx):
         explore.explore(
             ctx, LossScenario,
             {'events': ['call0', 'call1', 'call2', 'reply0', 'cbA', 'cbB',
-                        'cancelA', 'cbA2', 'cancelA2', 'error1', 'cbCall']},
-            max_depth=16, label='loss: calls and callbacks, to the fixpoint')
+                        'cancelA', 'cbA2', 'cancelA2', 'error1', 'cbCall',
+                        'tick']},
+            max_depth=17, label='loss: calls and callbacks, to the fixpoint')
     ctx.bounds = {'address_entries': 3}
 
 
